@@ -1,4 +1,4 @@
-import DadiVerif.Lemmas.LowPassSums
+import DadiVerif.Lemmas.LowPassGeno
 import Mathlib.Data.List.Basic
 import Mathlib.Data.List.Sort
 import Mathlib.Data.List.Count
@@ -6,6 +6,7 @@ import Mathlib.Tactic.NormNum
 import Mathlib.Tactic.IntervalCases
 /-! C18 helper lemmas, part 2: genotype partitions (all and only, each once), genotype counts, positivity of the
     partition weights, the normalised partition distribution, mixtures over it. -/
+set_option linter.unusedSimpArgs false
 namespace DadiVerif.LowPass
 open Finset
 
@@ -187,31 +188,14 @@ theorem waysOf_pos (g : List ℕ) : 0 < waysOf g := by
   have := multinom3_pos (g.count 0) (g.count 1) (g.count 2)
   positivity
 
-theorem rising_pos (a : ℚ) (ha : 0 < a) (k : ℕ) : 0 < rising a k := by
-  induction k with
-  | zero => simp [rising]
-  | succ k ih =>
-    rw [rising]
-    have : (0:ℚ) ≤ k := Nat.cast_nonneg k
-    have : 0 < a + k := by linarith
-    positivity
-
-theorem betaBinom_pos (i n : ℕ) (hi : i ≤ n) (a b : ℚ) (ha : 0 < a) (hb : 0 < b) : 0 < betaBinom i n a b := by
-  unfold betaBinom
-  have h1 := rising_pos a ha i
-  have h2 := rising_pos b hb (n - i)
-  have h3 := rising_pos (a + b) (by linarith) n
-  have h4 : (0:ℚ) < (choose n i : ℕ) := by rw [choose_eq]; exact_mod_cast Nat.choose_pos hi
-  positivity
-
 /-- the un-normalised inbreeding weight in closed form, when the guard fires -/
 theorem inbWeightOf_eq (g : List ℕ) (F : ℚ)
     (hguard : g.sum ≠ 0 ∧ g.sum ≠ 2 * g.length) :
     inbWeightOf g F =
       (fact g.length : ℚ) / ((fact (g.count 0) : ℚ) * (fact (g.count 1) : ℚ) * (fact (g.count 2) : ℚ))
-        * betaBinom 0 2 (Gen.LowPass.inbAlpha (pOf g) F) (Gen.LowPass.inbBeta (pOf g) F) ^ (g.count 0)
-        * betaBinom 1 2 (Gen.LowPass.inbAlpha (pOf g) F) (Gen.LowPass.inbBeta (pOf g) F) ^ (g.count 1)
-        * betaBinom 2 2 (Gen.LowPass.inbAlpha (pOf g) F) (Gen.LowPass.inbBeta (pOf g) F) ^ (g.count 2) := by
+        * Gen.LowPass.inbP00 (pOf g) F ^ (g.count 0)
+        * Gen.LowPass.inbP01 (pOf g) F ^ (g.count 1)
+        * Gen.LowPass.inbP11 (pOf g) F ^ (g.count 2) := by
   have hG : Gen.LowPass.inbGuard ((g.sum : ℕ) : ℤ) ((g.length : ℕ) : ℤ) = true := by
     simp only [Gen.LowPass.inbGuard, Bool.and_eq_true, bne_iff_ne, ne_eq]
     constructor
@@ -258,15 +242,9 @@ theorem inbWeightOf_pos (g : List ℕ) (hb : ∀ v ∈ g, v ≤ 2) (F : ℚ) (hF
   by_cases hguard : g.sum ≠ 0 ∧ g.sum ≠ 2 * g.length
   · rw [inbWeightOf_eq g F hguard]
     obtain ⟨hp0, hp1⟩ := pOf_unit g hb hguard.1 hguard.2
-    have hr : 0 < (1 - F) / F := div_pos (by linarith) hF0
-    have ha : 0 < Gen.LowPass.inbAlpha (pOf g) F := by unfold Gen.LowPass.inbAlpha; positivity
-    have hb' : 0 < Gen.LowPass.inbBeta (pOf g) F := by
-      unfold Gen.LowPass.inbBeta
-      have : 0 < 1 - pOf g := by linarith
-      positivity
-    have b0 := betaBinom_pos 0 2 (by norm_num) _ _ ha hb'
-    have b1 := betaBinom_pos 1 2 (by norm_num) _ _ ha hb'
-    have b2 := betaBinom_pos 2 2 (by norm_num) _ _ ha hb'
+    obtain ⟨e0, e1, e2⟩ := inbP_closed (pOf g) F hF0.ne' hF1.ne
+    obtain ⟨b0, b1, b2⟩ := g_pos (pOf g) F hp0 hp1 hF0.le hF1
+    rw [e0, e1, e2]
     have := fact_pos g.length; have := fact_pos (g.count 0); have := fact_pos (g.count 1); have := fact_pos (g.count 2)
     positivity
   · rw [inbWeightOf_else g F hguard]; norm_num
